@@ -132,10 +132,40 @@ fn observe(env: &mut Env, apis: &[&'static [&'static str]]) -> Vec<(Option<i32>,
     v
 }
 
+/// Spell out every documented optional field with the value it has by default, so that each
+/// of them (strings, numbers, nested objects) takes part in the re-serialisations.
+fn enrich(value: &mut Value) {
+    let Some(o) = value.as_object_mut() else { return };
+    o.entry("change_provider").or_insert(json!({"use": "git"}));
+    o.entry("out_dir").or_insert(json!("monorail-out"));
+    if let Some(server) = o.get_mut("server").and_then(|s| s.as_object_mut()) {
+        for k in ["log", "lock"] {
+            if let Some(s) = server.get_mut(k).and_then(|s| s.as_object_mut()) {
+                s.entry("host").or_insert(json!("127.0.0.1"));
+                s.entry("bind_timeout_ms").or_insert(json!(1000));
+            }
+        }
+    }
+    if let Some(ts) = o.get_mut("targets").and_then(|t| t.as_array_mut()) {
+        for t in ts.iter_mut().take(2) {
+            if let Some(t) = t.as_object_mut() {
+                let path = t.get("path").and_then(|p| p.as_str()).unwrap_or("").trim_end_matches('/').to_string();
+                t.entry("argmaps").or_insert(json!({
+                    "path": format!("{}/monorail/argmap", path),
+                    "definitions": {"zulu": {"path": "tools/c18/zulu.json"}, "extra": {"path": "tools/c18/extra.json"}, "base": {"path": "tools/c18/base.json"}},
+                }));
+            }
+        }
+    }
+}
+
 pub fn check(case: &Case, w: usize) -> CheckResult {
     let mut env = Env::new(w);
     env.install_config(&case.config);
-    let value = env.with_ports(&case.config).to_value();
+    let mut value = env.with_ports(&case.config).to_value();
+    if case.config.sequences.contains_key("check") {
+        enrich(&mut value);
+    }
     // sanity: the value is a valid configuration (independently of how files are read)
     let all = case.config.target_paths();
     let valid = monorail::verif::index_groups(&serde_json::to_string(&value).unwrap(), &all, &env.repo);
@@ -224,7 +254,7 @@ pub fn run(ctx: &mut Ctx) {
     ctx.rule = "a valid configuration value (small generated configs with nesting/uses/ignores/sequences, or 20-300 targets) x 4-8 serialisations by the harness's own writer: compact, pretty, \
 random inter-token whitespace, shuffled key order in every object, \\uXXXX escapes, whitespace padding before/inside/after the document up to 4000, 8191-8193, 16 KiB, 64 KiB, 200 KiB, and alignment of a non-ASCII character so that it ends before / straddles / starts at a multiple of 1-64 KiB. \
 oracle (metamorphic): the compact form is accepted, and every serialisation yields JSON-equal stdout (modulo timestamp) and equal exit status for `config show`, `target show -g`, \
-`analyze --target-groups`, and for the small configurations (4 named sequences, 4 command definitions on two targets) also `target show --commands`, `run -s check`, `run -s release`, `run -c build zeta alpha` (failed flag and statuses). non-trivial = some serialisation is larger than 8192 bytes and its first 8192 bytes are not a complete document; distinct by SHA-256"
+`analyze --target-groups`, and for the small configurations (4 named sequences, 4 command definitions and 3 argmap definitions on two targets, every documented optional field spelled out) also `target show --commands`, `run -s check`, `run -s release`, `run -c build zeta alpha` (failed flag and statuses). non-trivial = some serialisation is larger than 8192 bytes and its first 8192 bytes are not a complete document; distinct by SHA-256"
         .to_string();
     ctx.assumptions = vec!["validity of the value is established through the in-process hook (serde + Index), independently of file reading".into()];
     let n = ctx.n(200, 4000);
